@@ -823,8 +823,16 @@ def c11(ctx):
         nontrivial=lambda c: c["sub"]["T"]["k"] in ("struct", "named"),
         assumptions=TCB + ["documented transport limits are not judged: non-finite floats via JSON, integers above MaxInt64 via UBJSON"])
 
+def model_unfold(ctx):
+    """Model-level: the unfolder's state stack under every well-formed stream with Reset at any point."""
+    core.tlc_model_check(ctx, "SFUnfold", dict(MaxEvents=9 if ctx.quick else 11, Known={"a"}, Unknown={"x"}),
+                         ["NoError", "NeverBelowSentinel", "SkipIsOneValue", "DepthAgrees", "CompleteIsIdle"], "SFUnfold",
+                         properties=["ResetIsFresh"])
+
+
 def c13(ctx):
     rnd = ctx.rng
+    model_unfold(ctx)
     rows = gen_gotypes(ctx)
     seen, types = set(), []
     for r in rows:
@@ -928,6 +936,7 @@ def gotypes_key(idx):
 
 def c14(ctx):
     rnd = ctx.rng
+    model_unfold(ctx)
     rows = gen_gotypes(ctx)
     seen, types = set(), []
     for r in rows:
